@@ -2,13 +2,14 @@
 """keep a confirmed seeded change: tools/keep_seed.py <Cnn> <k> "<needs>" "<caught-by summary>" """
 import json, os, shutil, sys
 c, k, needs, caught = sys.argv[1:5]
-src = f"/tmp/seed/{c}_out/{k}"
-dst = f"/verif/seeded/{c}-{k}"
+rnd = int(sys.argv[5]) if len(sys.argv) > 5 else 1
+src = f"/tmp/seed{'' if rnd == 1 else rnd}/{c}_out/{k}"
+dst = f"/verif/seeded/{c}-{int(k) + 2 * (rnd - 1)}"
 os.makedirs(dst, exist_ok=True)
 for f in ("patch.diff", "demo.py", "notes.md"):
     if os.path.exists(os.path.join(src, f)):
         shutil.copy(os.path.join(src, f), dst)
-json.dump({"property": c, "needs_to_manifest": needs,
+json.dump({"property": c, "round": rnd, "needs_to_manifest": needs,
            "confirmed": "tools/seedcheck.py: demo exits 0 on the unchanged copy and 1 with the patch; pinned suite still 139 passed with the patch",
            "checks_run": caught}, open(os.path.join(dst, "meta.json"), "w"), indent=1)
 print("kept", dst)
